@@ -1,7 +1,7 @@
 """C03 - ORDER BY / DISTINCT / LIMIT: stable sorted permutation, NULL first, dedup, cut.
 
 matrix : all direction patterns of 1..3 keys x key form (position, name, visible, hidden
-         expression) over {NULL,1,2}^3 twice (ties and NULLs in every key), with/without
+         expression) over {NULL,1,2}^3 twice (ties, NULLs, zero and negative values in every key), with/without
          DISTINCT, LIMIT around the result size.
 random : generated aggregate and non-aggregate SELECTs with ORDER BY / DISTINCT / LIMIT vs the
          reference pipeline (stable sort -> project -> DISTINCT -> LIMIT).
@@ -25,7 +25,7 @@ RULE = ('random/sorted: table (NULL-rich pools of <= 5 values per column so ties
 ASSUMPTIONS = ['sort keys are mutually comparable scalars (int/decimal, str, date, bool); no order is promised on other types',
                'aliases referenced by ORDER BY are unique and differ from table column names']
 
-VALS = [None, 1, 2]
+VALS = [None, -1, 0, 2]
 
 
 def matrix_table():
@@ -53,9 +53,14 @@ def matrix_cases():
                 if form in ('hidden', 'mixed') or n < 3:
                     out.append(bql.select([t for t in tl if t[0] != R], ('table', 'm'), order_by=ob, distinct=True))
                 out.append(bql.select(tl, ('table', 'm'), order_by=ob, limit=5))
-    # DISTINCT + LIMIT together, around the de-duplicated size
-    for lim in (0, 1, 8, 9, 10):
+    # DISTINCT + LIMIT together, around the de-duplicated size, keys in one direction and in both
+    for lim in (0, 1, 3, 15, 16, 17):
         out.append(bql.select([(A, None), (B, None)], ('table', 'm'), order_by=[(C, 'DESC'), (1, 'ASC')], distinct=True, limit=lim))
+        for d in ('ASC', 'DESC'):
+            out.append(bql.select([(A, None)], ('table', 'm'), order_by=[(1, d)], distinct=True, limit=lim))
+            out.append(bql.select([(A, None), (B, None)], ('table', 'm'), order_by=[(A, d), (B, d)], distinct=True, limit=lim))
+            out.append(bql.select([(B, None)], ('table', 'm'), order_by=[(C, d), (A, d)], distinct=True, limit=lim))
+            out.append(bql.select([(A, None), (R, None)], ('table', 'm'), order_by=[(A, d)], limit=lim))
     # aggregate queries ordered by aggregates / keys
     cnt = ['fn', 'count', [['star']]]
     for dirs in itertools.product(['ASC', 'DESC'], repeat=2):
@@ -235,7 +240,7 @@ def prop_limits(sh, case):
     size = len(table['rows'])
     for lim in (0, 1, size - 1, size, size + 1, 10**6, 2**63 - 1, 2**63, 10**30):
         for text, want in ((f'SELECT rid FROM #m LIMIT {lim}', [(r[0],) for r in table['rows']][:lim]),
-                           (f'SELECT DISTINCT a FROM #m ORDER BY a DESC LIMIT {lim}', [(2,), (1,), (None,)][:lim])):
+                           (f'SELECT DISTINCT a FROM #m ORDER BY a DESC LIMIT {lim}', [(2,), (0,), (-1,), (None,)][:lim])):
             r = harness.engine(conn, text)
             if r[0] != 'ok':
                 fails.append((harness.exc_sig(r[1], 'limits:raises'), f'{text!r}: {r[1]!r}'))
@@ -245,7 +250,58 @@ def prop_limits(sh, case):
     return fails
 
 
-PARTS = {'matrix': prop_select, 'random': prop_select, 'sorted': prop_sorted, 'limits': prop_limits}
+
+# ------------------------------------------------------------------ the same on Beancount-backed tables
+
+_SCHEMA = {}
+
+
+def ledger_schema():
+    if not _SCHEMA:
+        from vlib import ledgermodel, ledgers
+        conn = ledgers.connect(ledgers.SAMPLE)
+        entries, _, _ = ledgers.load(ledgers.SAMPLE)
+        for name, t in ledgermodel.model_tables(conn, entries).items():
+            _SCHEMA[name] = t['cols']
+    return _SCHEMA
+
+
+@st.composite
+def ledger_case(draw):
+    from vlib import ledgergen
+    desc = draw(ledgergen.ledgers(max_txns=6, many_extras=True))
+    schema = ledger_schema()
+    name = draw(st.sampled_from(['postings', 'entries', 'transactions', 'transactions', 'prices', 'notes', 'notes', 'events', 'events', 'documents', 'documents']))
+    pseudo = {'name': name, 'cols': schema[name]}
+    if draw(st.booleans()):
+        sel = draw(gen.agg_selects(pseudo, order=True))
+    else:
+        sel = draw(gen.plain_selects(pseudo, order=True))
+    if not True:
+        sel['limit'] = None
+    return {'text': ledgergen.render(desc), 'table': name, 'sel': harness.force_aliases(sel), 'via_ast': True}
+
+
+def prop_ledger(sh, case):
+    from vlib import ledgermodel, ledgers
+    entries, errors, options = ledgers.load(case['text'])
+    conn = ledgers.connect_entries(entries, options)
+    tabs = ledgermodel.model_tables(conn, entries)
+    c = dict(case, tables=[], text=bql.statement(case['sel']))
+    fails, info = harness.compare_select(c, conn=conn, model_tabs=tabs)
+    if 'undef' in info:
+        sh.count('oracle_undefined')
+        sh.record(None, False)
+        return fails
+    nrows = len(tabs[case['table']]['rows'])
+    nontrivial = nrows >= 3 and len(info.get('want', ())) >= 2
+    sh.count('ledger:' + case['table'])
+    sh.record(jsonio.case_hash([case['sel'], case['table'], case['text']]), nontrivial,
+              {'text': c['text'], 'table_rows': nrows, 'result': repr(info.get('want'))[:200]} if nontrivial else None)
+    return [(f'ledger:{s}', d) for s, d in fails]
+
+
+PARTS = {'ledger': prop_ledger, 'matrix': prop_select, 'random': prop_select, 'sorted': prop_sorted, 'limits': prop_limits}
 
 
 def run(sh):
@@ -259,3 +315,4 @@ def run(sh):
             sh.fail(sig, detail, None, 'limits')
     sh.search('random', random_case(), prop_select, quick=5000, thorough=150000)
     sh.search('sorted', sorted_case(), prop_sorted, quick=3000, thorough=80000)
+    sh.search('ledger', ledger_case(), prop_ledger, quick=1600, thorough=50000)
